@@ -58,10 +58,42 @@ enum ReadEnd {
     Timeout,
 }
 
+/// The socket is kept split so that a request can be written while replies are being read
+/// (a client that writes a large pipelined request without reading deadlocks against any
+/// server once both socket buffers are full; real drivers read while they write).
+struct Halves {
+    r: tokio::io::ReadHalf<TcpStream>,
+    w: tokio::io::WriteHalf<TcpStream>,
+}
+
 struct Conn {
-    s: TcpStream,
+    s: Halves,
     f: Framer,
     raw: Vec<u8>,
+}
+
+impl Halves {
+    fn new(s: TcpStream) -> Halves {
+        let (r, w) = tokio::io::split(s);
+        Halves { r, w }
+    }
+    async fn write_all(&mut self, b: &[u8]) -> std::io::Result<()> {
+        self.w.write_all(b).await
+    }
+    async fn read(&mut self, b: &mut [u8]) -> std::io::Result<usize> {
+        self.r.read(b).await
+    }
+    async fn read_exact(&mut self, b: &mut [u8]) -> std::io::Result<usize> {
+        self.r.read_exact(b).await
+    }
+    /// Close the connection; with `abort` as a reset.
+    fn close(self, abort: bool) {
+        let mut s = self.r.unsplit(self.w);
+        if abort {
+            s.set_abort_on_drop(true);
+        }
+        drop(s);
+    }
 }
 
 impl Conn {
@@ -132,7 +164,8 @@ pub async fn run_client(spec: ClientSpec) {
         c.connected = true;
         c.net_conn = s.conn_id();
     }
-    let mut conn = Conn { s, f: Framer::default(), raw: Vec::new() };
+    let mut abort_at_end = false;
+    let mut conn = Conn { s: Halves::new(s), f: Framer::default(), raw: Vec::new() };
 
     // ---- startup ----
     if spec.ssl_probe {
@@ -294,7 +327,7 @@ pub async fn run_client(spec: ClientSpec) {
             Step::Drop { abort } => {
                 rec.op = "drop".into();
                 if *abort {
-                    conn.s.set_abort_on_drop(true);
+                    abort_at_end = true;
                 }
                 rec.outcome = StepOutcome::Cut;
                 open = false;
@@ -487,31 +520,28 @@ pub async fn run_client(spec: ClientSpec) {
                     rec.sent_seq = simcore::log::world(|| format!("client {} step {} cut at {}", id, idx, k));
                     rec.sent_us = simcore::clock::now_us();
                     if *abort {
-                        conn.s.set_abort_on_drop(true);
+                        abort_at_end = true;
                     }
                     world::fault("client_cut");
                     rec.outcome = StepOutcome::Cut;
                     open = false;
                 } else {
-                    let w = tokio::time::timeout(patience, conn.s.write_all(&bytes)).await;
-                    rec.sent = bytes;
-                    rec.sent_seq = simcore::log::world(|| format!("client {} step {} sent", id, idx));
-                    rec.sent_us = simcore::clock::now_us();
-                    world::emit(&format!("c{}.s{}.sent", id, idx));
+                    let want = rfq.unwrap_or_else(|| expected_rfq(msgs));
                     let has_x = msgs.iter().any(|m| matches!(m, FrontMsg::X));
-                    if !matches!(w, Ok(Ok(()))) {
-                        rec.outcome = StepOutcome::Closed("write".into());
-                        open = false;
-                    } else {
-                        let want = rfq.unwrap_or_else(|| expected_rfq(msgs));
-                        let mut seen = 0;
-                        let deadline = tokio::time::Instant::now() + patience;
-                        if want == 0 {
-                            rec.outcome = StepOutcome::Done;
-                        }
-                        while seen < want {
-                            match conn.next(deadline).await {
-                                ReadEnd::Msg(m) => {
+                    let deadline = tokio::time::Instant::now() + patience;
+                    let mut off = 0usize;
+                    let mut seen = 0usize;
+                    let mut failed = false;
+                    rec.outcome = StepOutcome::NotRun;
+                    while off < bytes.len() || seen < want {
+                        let Conn { s: halves, f, raw } = &mut conn;
+                        let mut rbuf = [0u8; 16384];
+                        // drain already-framed messages first
+                        let mut progressed = false;
+                        loop {
+                            match f.next() {
+                                Ok(Some(m)) => {
+                                    progressed = true;
                                     let z = m.ty == b'Z';
                                     let st = m.body.first().cloned().unwrap_or(0);
                                     rec.msgs.push(m);
@@ -521,18 +551,62 @@ pub async fn run_client(spec: ClientSpec) {
                                             rec.outcome = StepOutcome::Ready(st);
                                         }
                                     }
+                                    if seen >= want && want > 0 {
+                                        break;
+                                    }
                                 }
-                                ReadEnd::Closed(how) => {
-                                    rec.outcome = StepOutcome::Closed(how.into());
-                                    open = false;
-                                    break;
-                                }
-                                ReadEnd::Timeout => {
-                                    rec.outcome = StepOutcome::Timeout;
-                                    open = false;
+                                Ok(None) => break,
+                                Err(_) => {
+                                    rec.outcome = StepOutcome::Closed("garbage".into());
+                                    failed = true;
                                     break;
                                 }
                             }
+                        }
+                        if failed || (off >= bytes.len() && seen >= want) {
+                            break;
+                        }
+                        if progressed {
+                            continue;
+                        }
+                        tokio::select! {
+                            biased;
+                            w = halves.w.write(&bytes[off..]), if off < bytes.len() => {
+                                match w {
+                                    Ok(0) | Err(_) => { rec.outcome = StepOutcome::Closed("write".into()); failed = true; }
+                                    Ok(n) => {
+                                        off += n;
+                                        if off == bytes.len() {
+                                            rec.sent_seq = simcore::log::world(|| format!("client {} step {} sent", id, idx));
+                                            rec.sent_us = simcore::clock::now_us();
+                                            world::emit(&format!("c{}.s{}.sent", id, idx));
+                                        }
+                                    }
+                                }
+                            }
+                            r = tokio::time::timeout_at(deadline, halves.r.read(&mut rbuf)), if want > 0 || off < bytes.len() => {
+                                match r {
+                                    Err(_) => { rec.outcome = StepOutcome::Timeout; failed = true; }
+                                    Ok(Ok(0)) => { rec.outcome = StepOutcome::Closed("eof".into()); failed = true; }
+                                    Ok(Ok(n)) => { raw.extend_from_slice(&rbuf[..n]); f.push(&rbuf[..n]); }
+                                    Ok(Err(_)) => { rec.outcome = StepOutcome::Closed("reset".into()); failed = true; }
+                                }
+                            }
+                        }
+                        if failed {
+                            break;
+                        }
+                    }
+                    rec.sent = bytes;
+                    if rec.sent_seq == 0 {
+                        rec.sent_seq = simcore::log::world(|| format!("client {} step {} sent (partial {})", id, idx, off));
+                        rec.sent_us = simcore::clock::now_us();
+                    }
+                    if failed {
+                        open = false;
+                    } else {
+                        if want == 0 {
+                            rec.outcome = StepOutcome::Done;
                         }
                         if has_x {
                             open = false;
@@ -546,6 +620,6 @@ pub async fn run_client(spec: ClientSpec) {
         rec.done_us = simcore::clock::now_us();
         push_step(id, rec);
     }
-    drop(conn);
+    conn.s.close(abort_at_end);
     finish(id);
 }
